@@ -122,6 +122,10 @@ func genMessage(r *Rand, id int) []byte {
 		b.WriteString(r.Pick([]string{"X-Fold: a" + lt + " b" + lt, "X-Sp : v" + lt, "X-Nul: a\x00b" + lt, "X-Empty:" + lt, "X-Long: " + strings.Repeat("v", 300) + lt,
 			"Connection: keep-alive" + lt, "Expect: 100-continue" + lt, "X-Tab:\tv" + lt, "Content-Type: text/plain" + lt}))
 	}
+	if r.Chance(8) {
+		// an expectation the server accepts by itself (no Expect/Continue handler): interim response, then the body
+		b.WriteString(r.Pick([]string{"Expect: 100-continue", "Expect: 100-continue", "expect: 100-Continue", "Expect: 100-continue "}) + lt)
+	}
 	if r.Chance(6) {
 		// multipart/form-data body with preamble / epilogue of various lengths inside Content-Length
 		smug := "GET /smuggled HTTP/1.1\r\nHost: s\r\n\r\n"
